@@ -7,7 +7,7 @@ git -C /repo worktree add --detach -f $W >/dev/null 2>&1 || { echo "worktree fai
 EVBAK=/verif/.work/evidence.bak.$$
 mkdir -p /verif/.work && cp -r /verif/evidence $EVBAK
 # mutant runs must not leave their evidence (or regenerated constants) behind
-trap 'git -C /repo worktree remove --force $W >/dev/null 2>&1; rm -rf $W; rm -rf /verif/evidence; mv $EVBAK /verif/evidence; (cd /verif && PYTHONPATH=/repo/Lib:/verif /venv/bin/python harness/consts_from_source.py >/dev/null 2>&1)' EXIT
+trap 'git -C /repo worktree remove --force $W >/dev/null 2>&1; rm -rf $W; rm -rf /verif/evidence; mv $EVBAK /verif/evidence; (cd /verif && PYTHONPATH=/repo/Lib:/verif /venv/bin/python harness/consts_from_source.py >/dev/null 2>&1; PYTHONPATH=/repo/Lib:/verif /venv/bin/python harness/pipeline_from_source.py >/dev/null 2>&1)' EXIT
 if [ -n "${MUT_SED:-}" ]; then
   sed -i "$MUT_SED" $W/$MUT_FILE
 else
